@@ -70,11 +70,11 @@ def _apply(o, a, phys):
     k = a[0]
     try:
         if k == "kd":
-            _dispatch(o, "key_press_event", _Ev(key="shift", name="key_press_event", inaxes=o.ax2, xdata=None, ydata=None), o.on_key_press)
+            _dispatch(o, "key_press_event", _Ev(key="shift", name="key_press_event", inaxes=o.ax2, xdata=None, ydata=None, x=100, y=100, guiEvent=None, canvas=None), o.on_key_press)
         elif k == "ku":
-            _dispatch(o, "key_release_event", _Ev(key="shift", name="key_release_event", inaxes=o.ax2, xdata=None, ydata=None), o.on_key_release)
+            _dispatch(o, "key_release_event", _Ev(key="shift", name="key_release_event", inaxes=o.ax2, xdata=None, ydata=None, x=100, y=100, guiEvent=None, canvas=None), o.on_key_release)
         elif k == "ko":
-            ev = _Ev(key=a[1], name="key_%s_event" % a[2], inaxes=o.ax2, xdata=None, ydata=None)
+            ev = _Ev(key=a[1], name="key_%s_event" % a[2], inaxes=o.ax2, xdata=None, ydata=None, x=100, y=100, guiEvent=None, canvas=None)
             _dispatch(o, "key_%s_event" % a[2], ev, o.on_key_press if a[2] == "press" else o.on_key_release)
         elif k == "m":  # a menu entry of the dialog (show / hide unstable poles, help): selects nothing
             cmd = _SESSION["menu"].get(a[1])
@@ -93,12 +93,14 @@ def _apply(o, a, phys):
                 _SESSION["closed_via"] = "none"
         else:
             mods = frozenset(["shift"]) if phys else frozenset()
-            if k == "c":
-                ev = _Ev(button=_button(a[1]), xdata=np.float64(a[2]), ydata=np.float64(a[3]), inaxes=o.ax2, key="shift" if phys else None,
-                         modifiers=mods, dblclick=False, name="button_press_event", x=100, y=100, step=0)
+            dbl = a[-1] == "dbl"  # the second of two quick presses: Matplotlib delivers it with MouseEvent.dblclick = True
+            canvas = getattr(getattr(o, "fig", None), "canvas", None)
+            if k == "c":  # every attribute a real matplotlib.backend_bases.MouseEvent carries
+                ev = _Ev(name="button_press_event", canvas=canvas, guiEvent=None, button=_button(a[1]), xdata=np.float64(a[2]), ydata=np.float64(a[3]),
+                         inaxes=o.ax2, key="shift" if phys else None, modifiers=mods, dblclick=dbl, x=100, y=100, step=0)
             else:  # click outside the axes
-                ev = _Ev(button=_button(a[1]), xdata=None, ydata=None, inaxes=None, key="shift" if phys else None,
-                         modifiers=mods, dblclick=False, name="button_press_event", x=1, y=1, step=0)
+                ev = _Ev(name="button_press_event", canvas=canvas, guiEvent=None, button=_button(a[1]), xdata=None, ydata=None, inaxes=None,
+                         key="shift" if phys else None, modifiers=mods, dblclick=dbl, x=1, y=1, step=0)
             _dispatch(o, "button_press_event", ev, o.on_click_FDD if o.plot == "FDD" else (lambda e: o.on_click_SSI(e, o.plot)))
         return None
     except Exception as e:  # Matplotlib's callback registry swallows handler exceptions too
@@ -598,6 +600,29 @@ POPULATED = {
 POPULATED["pLSCF"] = POPULATED["SSI"]
 
 
+def quick_repeats(script):
+    """A press identical to the press just before it (same button, same place) delivered as the second of two QUICK presses:
+    Matplotlib reports it with dblclick=True.  The property makes no difference: every press with the modifier held acts."""
+    out = []
+    for a in script:
+        a = tuple(a)
+        if a[0] in ("c", "co") and out and out[-1][0] == a[0] and a[-1] != "dbl" and tuple(x for x in out[-1] if x != "dbl") == a:
+            a = a + ("dbl",)
+        out.append(a)
+    return tuple(out)
+
+
+def add_quick_press(rng, script, p=0.5):
+    """With probability p: one click of the history is followed by a quick second press at the same place (dblclick=True)."""
+    script = tuple(tuple(a) for a in script)
+    idx = [i for i, a in enumerate(script) if a[0] == "c" and a[-1] != "dbl"]
+    if not idx or rng.random() >= p:
+        return script
+    deselects = [i for i in idx if script[i][1] in (2, 3)]
+    i = rng.choice(deselects) if deselects and rng.random() < 0.6 else rng.choice(idx)
+    return script[: i + 1] + (script[i] + ("dbl",),) + script[i + 1 :]
+
+
 def enumerate_sequences(ctx, variant, tab, letters, maxlen, tag, maxlen_populated=None, freqlim=None, ordlim=None):
     """ALL sequences over `letters` of length <= maxlen, from the fresh dialog and with the modifier already held; and all
     sequences of length <= maxlen_populated from each pre-populated selection of POPULATED."""
@@ -609,6 +634,8 @@ def enumerate_sequences(ctx, variant, tab, letters, maxlen, tag, maxlen_populate
         for L in range(ml + 1):
             for seq in itertools.product(letters, repeat=L):
                 script = prefix + seq
+                if n % 3 != 0:  # in two thirds of the sequences an immediately repeated press is a quick one (dblclick=True)
+                    script = quick_repeats(script)
                 rec, exc, result = drive(algo, variant, script, enum=(n % 2 == 1), freqlim=freqlim)
                 fin = store.add_trace(script, rec, result)
                 n += 1
@@ -850,7 +877,10 @@ def random_script(rng, variant, A):
     if rng.random() < 0.8:
         script.append(("kd",))
     while len(script) < L:
-        script.append(random_action(rng, variant, A, None))
+        if script and script[-1][0] == "c" and rng.random() < 0.2:
+            script.append(tuple(x for x in script[-1] if x != "dbl") + ("dbl",))  # a quick second press at the same place
+        else:
+            script.append(random_action(rng, variant, A, None))
     return tuple(script)
 
 
@@ -1104,7 +1134,7 @@ def _run(ctx):
                 st = Store(ctx, variant, table, "display-limits", shape=table.shape, freqlim=fl, ordlim=ol)
                 inject(algs[variant], table)
             stores.append(st)
-            for i, script in enumerate(edge_histories(rng, variant, xs, ys)):
+            for i, script in enumerate(add_quick_press(rng, h, 0.4) for h in edge_histories(rng, variant, xs, ys)):
                 if variant == "FDD":
                     rec, exc, result = drive(algo, "FDD", script, enum=bool(i % 2), freqlim=fl)
                     st.add_trace(script, rec, result)
@@ -1123,7 +1153,7 @@ def _run(ctx):
             st = Store(ctx, variant, A, "stable-poles", shape=A.shape)
             stores.append(st)
             inject(algs[variant], A)
-            for i, script in enumerate(hs):
+            for i, script in enumerate(add_quick_press(rng, h, 0.5) for h in hs):
                 handover(ctx, st, ss, variant, variant, script, rng.choice([None, 0.0, 1.0 / 64]), hmeta, enum=bool(i % 2))
                 rec = _SESSION["rec"] or []
                 ctx.count(dict(v=variant, stable=True, table=jsonable(st.T.raw), s=script), nontrivial=any(len(x[1]) > 0 for x in rec))
@@ -1144,7 +1174,7 @@ def _run(ctx):
                 inject(algs[variant], table)
             stores.append(st)
             ctx.hist("structured: orders in frequency order", " ".join(str(o) for _, o in picks) if variant != "FDD" else "FDD k=%d" % len(picks))
-            for i, script in enumerate(structured_histories(rng, variant, picks, table)):
+            for i, script in enumerate(add_quick_press(rng, h, 0.6) for h in structured_histories(rng, variant, picks, table)):
                 if variant == "FDD":
                     rec, exc, result = drive(algo, "FDD", script, enum=bool(i % 2))
                     st.add_trace(script, rec, result)
@@ -1242,7 +1272,7 @@ def _run(ctx):
                 script.append(("c", 3, 1.0, 1.0))
                 script.append(("ku",))
                 script.append(("c", 1, float(A[picks[-1]]), float(picks[-1][1])))
-            script = tuple(script)
+            script = add_quick_press(rng, tuple(script), 0.5)
             st = st1 if s % 2 == 0 else st0
             if near_tie(st.T, script):
                 ctx.not_judged += 1
@@ -1294,7 +1324,7 @@ def _run(ctx):
                     script.append(("c", 2, targets[0] + 0.05, 0.0))
                 if s % 3 == 2:
                     script.append(("c", 3, 0.0, 0.0))
-                script = tuple(script)
+                script = add_quick_press(rng, tuple(script), 0.5)
                 draw = s == 0
                 if draw:
                     set_mode(True)
